@@ -7,13 +7,21 @@ From Coq Require Import Lia.
 
 Definition lab_char (c : ascii) : bool := is_digit c || Ascii.eqb c " "%char.
 
-(* label field of five digits/blanks; statement text non-blank at both ends; the whole line,
-   inline comment included, within 72 columns; one physical line; it is a statement line: where
-   column 6 is blank its first non-blank character is not a '!' *)
-Definition wf_fxline (l : fxline) : Prop :=
+(* label field of five digits/blanks; statement text non-blank at both ends; one physical line; it
+   is a statement line: where column 6 is blank its first non-blank character is not a '!'.
+   Width, with the line length limited ([ll = true]): either the whole line, inline comment
+   included, lies within 72 columns, or its statement field fills columns 7-72 exactly and a
+   non-empty text follows in columns 73+; with the limit off: any width (and no notion of columns
+   73+: what stands there is statement text or comment like everything else). *)
+Definition field_width (l : fxline) : nat :=
+  fx_ind l + length (fx_text l) + fx_pad l + length (render_comment (fx_comment l)).
+Definition wf_fxline (ll : bool) (l : fxline) : Prop :=
   length (fx_label l) = 5 /\ Forall (fun c => lab_char c = true) (fx_label l) /\
   nsfirst (fx_text l) /\ nslast (fx_text l) /\
-  fx_ind l + length (fx_text l) + fx_pad l + length (render_comment (fx_comment l)) <= 66 /\
+  match fx_seq l with
+  | None => ll = true -> field_width l <= 66
+  | Some sq => ll = true /\ field_width l = 66 /\ sq <> [] /\ ~ In nl sq
+  end /\
   ~ In nl (fx_text l) /\
   match fx_comment l with Some t => ~ In nl t | None => True end /\
   (is_space (fx_c6 l) = true -> head_is bang (fx_text l) = false).
@@ -137,45 +145,74 @@ Proof.
     cbn [Nat.eqb negb]. apply andb_false_r.
 Qed.
 
-(* the analysis of a statement line that fits in 72 columns *)
-Lemma analyse_fxline ll l :
-  wf_fxline l ->
-  analyse ll (render_fxline l) =
-  {| f_conv := label_part l ++ fx_field l ++ [nl];
-     f_regular := true;
-     f_cont := negb (is_space (fx_c6 l) || Ascii.eqb (fx_c6 l) "0"%char);
-     f_long := false; f_omp := false; f_excess := [] |}.
+Definition lpart (lab : str) : str := match strip lab with [] => [] | d => lower d ++ [" "%char] end.
+
+Lemma lower_ns x : is_space x = false -> is_space (lower_ch x) = false.
 Proof.
-  intros (Hlen & Hlab & Hns & _ & Hw & _ & _ & Hbang).
-  destruct (length5 _ Hlen) as (a & b & c & d & e & El).
-  unfold render_fxline, label_part. rewrite El in *. clear El.
+  intros Hx. unfold lower_ch. destruct (is_upper x) eqn:U; [|exact Hx].
+  unfold is_upper in U. apply andb_true_iff in U as [U1 U2]. apply Nat.leb_le in U1, U2.
+  unfold is_space, Str.code in *. rewrite nat_ascii_embedding by lia.
+  apply orb_false_iff. split; apply andb_false_iff; [right|right]; apply Nat.leb_gt; lia.
+Qed.
+
+(* line_conv: label + code, or code when the label field is blank *)
+Lemma label_conv lab code :
+  (if negb (str_isspace (lower (strip lab) ++ s " ")) then (lower (strip lab) ++ s " ") ++ code else code)
+  = lpart lab ++ code.
+Proof.
+  unfold lpart. destruct (strip lab) as [|x xs] eqn:Es; [reflexivity|].
+  assert (Hsp : str_isspace (lower (x :: xs) ++ s " ") = false).
+  { cbn [lower map app str_isspace forallb]. now rewrite (lower_ns x (strip_head_ns _ _ _ Es)). }
+  rewrite Hsp. reflexivity.
+Qed.
+
+Lemma firstn_exact {A} (a b : list A) : firstn (length a) (a ++ b) = a.
+Proof. induction a as [|x a IH]; simpl; [now destruct b|now rewrite IH]. Qed.
+Lemma skipn_exact {A} (a b : list A) : skipn (length a) (a ++ b) = b.
+Proof. induction a as [|x a IH]; simpl; [reflexivity|exact IH]. Qed.
+Lemma firstn_app_le {A} n (x y : list A) : n <= length x -> firstn n (x ++ y) = firstn n x.
+Proof. intros H. rewrite firstn_app. replace (n - length x) with 0 by lia. cbn [firstn]. apply app_nil_r. Qed.
+Lemma skipn_app_le {A} n (x y : list A) : n <= length x -> skipn n (x ++ y) = skipn n x ++ y.
+Proof. intros H. rewrite skipn_app. replace (n - length x) with 0 by lia. reflexivity. Qed.
+
+(* the analysis of a statement line: label field, column 6, then [code] up to the end of the line.
+   With the line length limited, what lies beyond column 72 is split off as a comment. *)
+Lemma analyse_stmt ll lab c6 code :
+  length lab = 5 -> Forall (fun c => lab_char c = true) lab ->
+  str_empty (strip (lab ++ c6 :: code ++ [nl])) = false ->
+  starts_with (s "!") (lstrip (lab ++ c6 :: code ++ [nl]))
+  && negb (length (lab ++ c6 :: code ++ [nl]) - length (lstrip (lab ++ c6 :: code ++ [nl])) =? 5) = false ->
+  analyse ll (lab ++ c6 :: code ++ [nl]) =
+  let long := (66 <? length code) && ll in
+  let c := rstrip (lpart lab ++ firstn 66 code ++ [nl]) in
+  let ex := bang :: " "%char :: skipn 66 code ++ [nl] in
+  {| f_conv := if long then match inline_comment_start c with None => ljust 72 c ++ ex | Some _ => c ++ [nl] end
+               else lpart lab ++ code ++ [nl];
+     f_regular := true;
+     f_cont := negb (is_space c6 || Ascii.eqb c6 "0"%char);
+     f_long := long; f_omp := false;
+     f_excess := if long then match inline_comment_start c with None => ex | Some _ => [nl] end else [] |}.
+Proof.
+  intros Hlen Hlab Hblank Hbf. set (FC := firstn 66 code). set (SC := skipn 66 code).
+  destruct (length5 _ Hlen) as (a & b & c & d & e & El). rewrite El in *. clear El.
   inversion Hlab as [|? ? Ha Hl1]; subst. inversion Hl1 as [|? ? Hb Hl2]; subst.
   inversion Hl2 as [|? ? Hc Hl3]; subst. inversion Hl3 as [|? ? Hd Hl4]; subst.
   inversion Hl4 as [|? ? He _]; subst.
-  assert (Hblank : str_empty (strip ([a; b; c; d; e] ++ fx_c6 l :: fx_field l ++ [nl])) = false).
-  { unfold nsfirst in Hns. destruct (fx_text l) as [|t0 tx] eqn:Et; [destruct Hns|].
-    apply (strip_nonblank _ t0); [|exact Hns].
-    apply in_or_app. right. right. apply in_or_app. left. unfold fx_field, fx_code. rewrite Et.
-    apply in_or_app. left. apply in_or_app. right. left. reflexivity. }
-  assert (Hbf : starts_with (s "!") (lstrip ([a; b; c; d; e] ++ fx_c6 l :: fx_field l ++ [nl]))
-                && negb (length ([a; b; c; d; e] ++ fx_c6 l :: fx_field l ++ [nl])
-                         - length (lstrip ([a; b; c; d; e] ++ fx_c6 l :: fx_field l ++ [nl])) =? 5) = false).
-  { apply bang_first_stmt; try assumption. intros H6. specialize (Hbang H6).
-    unfold fx_field, fx_code. rewrite <- !app_assoc, lstrip_spaces.
-    unfold nsfirst in Hns. destruct (fx_text l) as [|t0 tx]; [destruct Hns|].
-    cbn [app]. rewrite (lstrip_ns t0 _ Hns). cbn [s list_ascii_of_string starts_with]. fold bang.
-    cbn [head_is] in Hbang. now rewrite Hbang. }
-  set (code := fx_field l) in *.
-  assert (Hcl : length code <= 66) by (unfold code; rewrite fx_field_length; lia).
   unfold analyse. rewrite Hblank, Hbf.
-  assert (Hn : length ([a; b; c; d; e] ++ fx_c6 l :: code ++ [nl]) = 7 + length code).
+  assert (Hn : length ([a; b; c; d; e] ++ c6 :: code ++ [nl]) = 7 + length code).
   { simpl. rewrite app_length. simpl. lia. }
   rewrite Hn.
   assert (H1 : (1 <? 7 + length code) = true) by (apply Nat.ltb_lt; lia).
   assert (H2 : (6 <=? 7 + length code) = true) by (apply Nat.leb_le; lia).
   assert (H3 : (7 + length code <=? 6) = false) by (apply Nat.leb_gt; lia).
-  assert (H4 : (73 <? 7 + length code) = false) by (apply Nat.ltb_ge; lia).
+  assert (H4 : (73 <? 7 + length code) = (66 <? length code)).
+  { destruct (66 <? length code) eqn:E; [apply Nat.ltb_lt in E; apply Nat.ltb_lt; lia
+                                         |apply Nat.ltb_ge in E; apply Nat.ltb_ge; lia]. }
   rewrite H1, H2, H3, H4.
+  change (from 72 ([a; b; c; d; e] ++ c6 :: code ++ [nl])) with (skipn 66 (code ++ [nl])).
+  change (firstn 72 ([a; b; c; d; e] ++ c6 :: code ++ [nl]))
+    with ([a; b; c; d; e] ++ c6 :: firstn 66 (code ++ [nl])).
+  set (F := firstn 66 (code ++ [nl])). set (K := skipn 66 (code ++ [nl])).
   cbn [app firstn slice skipn Nat.sub from andb orb].
   rewrite (lab_not_comment a Ha). cbn [andb negb orb].
   change (contains_ch bang [b; c; d; e])
@@ -184,27 +221,24 @@ Proof.
   cbn [orb andb negb].
   change (str_eqb [a] (s "#")) with (Ascii.eqb a "#"%char && true).
   rewrite (lab_not_hash a Ha). cbn [andb orb negb].
-  change (str_isspace [fx_c6 l]) with (is_space (fx_c6 l) && true). rewrite andb_true_r.
-  change (str_eqb [fx_c6 l] (s "0")) with (Ascii.eqb (fx_c6 l) "0"%char && true). rewrite andb_true_r.
-  rewrite andb_true_r.
-  assert (H5 : (6 <? length (a :: b :: c :: d :: e :: fx_c6 l :: code ++ [nl])) = true).
-  { apply Nat.ltb_lt. simpl. rewrite app_length. simpl. lia. }
-  rewrite H5.
-  f_equal.
-  (* line_conv: label + code, or code when the label field is blank *)
-  destruct (strip [a; b; c; d; e]) as [|x xs] eqn:Es.
-  - reflexivity.
-  - assert (Hsp : str_isspace (lower (x :: xs) ++ s " ") = false).
-    { assert (Hx : is_space x = false).
-      { exact (strip_head_ns _ _ _ Es). }
-      cbn [lower map app str_isspace forallb].
-      assert (Hlx : is_space (lower_ch x) = false).
-      { unfold lower_ch. destruct (is_upper x) eqn:U; [|exact Hx].
-        unfold is_upper in U. apply andb_true_iff in U as [U1 U2]. apply Nat.leb_le in U1, U2.
-        unfold is_space, Str.code in *. rewrite nat_ascii_embedding by lia.
-        apply orb_false_iff. split; apply andb_false_iff; [right|right]; apply Nat.leb_gt; lia. }
-      now rewrite Hlx. }
-    rewrite Hsp. cbn [negb]. change (s " ") with [" "%char]. now rewrite <- app_assoc.
+  change (str_isspace [c6]) with (is_space c6 && true). rewrite andb_true_r.
+  change (str_eqb [c6] (s "0")) with (Ascii.eqb c6 "0"%char && true). rewrite andb_true_r.
+  rewrite !andb_true_r.
+  destruct ((66 <? length code) && ll) eqn:Elong; cbv zeta.
+  - (* beyond column 72 *)
+    assert (Hc66 : 66 <= length code).
+    { apply andb_true_iff in Elong as [E _]. apply Nat.ltb_lt in E. lia. }
+    assert (H5 : (6 <? length (a :: b :: c :: d :: e :: c6 :: F ++ [nl])) = true).
+    { apply Nat.ltb_lt. cbn [length]. rewrite app_length. cbn [length]. lia. }
+    rewrite H5. cbn [app skipn].
+    rewrite (label_conv [a; b; c; d; e] (F ++ [nl])).
+    subst F K. rewrite (firstn_app_le 66 code [nl] Hc66), (skipn_app_le 66 code [nl] Hc66).
+    fold FC SC.
+    destruct (inline_comment_start (rstrip (lpart [a; b; c; d; e] ++ FC ++ [nl]))); reflexivity.
+  - assert (H5 : (6 <? length (a :: b :: c :: d :: e :: c6 :: code ++ [nl])) = true).
+    { apply Nat.ltb_lt. simpl. rewrite app_length. simpl. lia. }
+    rewrite H5. cbn [skipn].
+    rewrite (label_conv [a; b; c; d; e] (code ++ [nl])). reflexivity.
 Qed.
 
 (* comment lines and short blank lines are not statement lines *)
@@ -313,115 +347,8 @@ Proof.
   rewrite IH by assumption. now rewrite <- app_assoc.
 Qed.
 
-Definition fx_conv (l : fxline) : str := label_part l ++ fx_field l ++ [nl].
-Definition fx_fline (l : fxline) : fline :=
-  {| f_conv := fx_conv l; f_regular := true;
-     f_cont := negb (is_space (fx_c6 l) || Ascii.eqb (fx_c6 l) "0"%char);
-     f_long := false; f_omp := false; f_excess := [] |}.
-
-Lemma analyse_fx ll l : wf_fxline l -> analyse ll (render_fxline l) = fx_fline l.
-Proof. intros H. rewrite (analyse_fxline ll l H). reflexivity. Qed.
-
-Lemma cont_flag_initial l : is_initial l -> f_cont (fx_fline l) = false.
-Proof. intros [H|H]; cbn [fx_fline f_cont]; rewrite H; reflexivity. Qed.
-
-Lemma cont_flag_continuation l : is_continuation l -> f_cont (fx_fline l) = true.
-Proof.
-  intros (H1 & H2 & _). cbn [fx_fline f_cont]. rewrite H1.
-  assert (E : Ascii.eqb (fx_c6 l) "0"%char = false) by now apply Ascii.eqb_neq.
-  now rewrite E.
-Qed.
-
-(* the converted text of a statement line when it is followed by a continuation line *)
-Definition fx_conv_continued (l : fxline) : str := insert_continuation (fx_conv l) 0 ++ [nl].
-
-Lemma map_conv_irr ll irrs : Forall wf_fxirr irrs ->
-  map f_conv (map (fun i => analyse ll (render_fxirr i)) irrs) = map irr_conv irrs.
-Proof.
-  intros H. induction H as [|i irrs Hi _ IH]; [reflexivity|].
-  cbn [map]. rewrite IH. f_equal. apply (analyse_irr ll i Hi).
-Qed.
-
-Lemma last_cons_default {A} (x : A) xs d1 d2 : List.last (x :: xs) d1 = List.last (x :: xs) d2.
-Proof. revert x. induction xs as [|y xs IH]; intros x; [reflexivity|]. simpl in *. apply IH. Qed.
-
-Definition last_line (prev : fxline) (conts : list (list fxirr * fxline)) : fxline :=
-  List.last (map snd conts) prev.
-
-(* continuation lines of one statement, with the previous statement line on the stack *)
-Lemma convert_go_conts ll conts : forall prev rest,
-  wf_fxline prev ->
-  Forall (fun p => Forall wf_fxirr (fst p) /\ wf_fxline (snd p) /\ is_continuation (snd p)) conts ->
-  exists last,
-    convert_go ll [fx_fline prev]
-      (flat_map (fun p => map render_fxirr (fst p) ++ [render_fxline (snd p)]) conts ++ rest)
-    = flat_map (fun q => fx_conv_continued (fst q) :: map irr_conv (snd q))
-               (combine (prev :: map snd conts) (map fst conts))
-      ++ convert_go ll [fx_fline last] rest
-    /\ last = last_line prev conts.
-Proof.
-  induction conts as [|[irrs k] conts IH]; intros prev rest Hp Hc.
-  - exists prev. split; reflexivity.
-  - inversion Hc as [|? ? (Hi & Hk & Hkc) Hr]; subst. cbn [fst snd] in *.
-    cbn [flat_map]. rewrite <- !app_assoc. rewrite convert_go_irr by assumption.
-    cbn [app convert_go fst snd]. rewrite (analyse_fx ll k Hk).
-    change (f_regular (fx_fline k)) with true. cbv iota. rewrite (cont_flag_continuation k Hkc).
-    cbn [app map]. cbn [continue_line fx_fline f_long f_regular f_conv f_omp andb negb].
-    rewrite (map_conv_irr ll irrs Hi).
-    destruct (IH k rest Hk Hr) as (last & E & El). exists last. split.
-    + cbn [map combine flat_map fst snd]. rewrite E. fold (fx_conv_continued prev).
-      cbn [app]. rewrite <- app_assoc. reflexivity.
-    + rewrite El. unfold last_line. cbn [map snd]. destruct conts as [|p conts]; [reflexivity|].
-      cbn [map]. change (List.last (k :: snd p :: map snd conts) prev) with (List.last (snd p :: map snd conts) prev).
-      apply last_cons_default.
-Qed.
-
-(* ---------- the whole file through the converter ---------- *)
-
-(* [P]: which comment and blank lines are admitted *)
-Definition wf_conts_of (P : fxirr -> Prop) (conts : list (list fxirr * fxline)) : Prop :=
-  Forall (fun p => Forall P (fst p) /\ wf_fxline (snd p) /\ is_continuation (snd p)) conts.
-Definition wf_stmt_of (P : fxirr -> Prop) (st : fxstmt) : Prop :=
-  wf_fxline (fs_first st) /\ is_initial (fs_first st) /\ wf_conts_of P (fs_conts st) /\
-  texts_ok None (fs_first st) (fs_conts st).
-Definition wf_item_of (P : fxirr -> Prop) (it : fxitem) : Prop :=
-  match it with FxIrr i => P i | FxStmt st => wf_stmt_of P st end.
-
-Definition wf_conts := wf_conts_of wf_fxirr.
-Definition wf_stmt := wf_stmt_of wf_fxirr.
-Definition wf_item := wf_item_of wf_fxirr.
-
-Definition stmt_lines (st : fxstmt) : list str :=
-  flat_map (fun q => fx_conv_continued (fst q) :: map irr_conv (snd q))
-           (combine (fs_first st :: map snd (fs_conts st)) (map fst (fs_conts st)))
-  ++ [fx_conv (last_line (fs_first st) (fs_conts st))].
-Definition out_item (it : fxitem) : list str :=
-  match it with FxIrr i => [irr_conv i] | FxStmt st => stmt_lines st end.
-
-Lemma convert_go_file ll f : forall stack,
-  Forall wf_item f ->
-  convert_go ll stack (render_fixed f) = map f_conv stack ++ flat_map out_item f.
-Proof.
-  induction f as [|it f IH]; intros stack H; [simpl; now rewrite app_nil_r|].
-  inversion H as [|? ? Hit Hf]; subst.
-  unfold render_fixed. cbn [flat_map]. fold (render_fixed f).
-  destruct it as [i|st].
-  - cbn [render_fxitem app convert_go out_item].
-    destruct (analyse_irr ll i Hit) as (Hc & Hreg). rewrite Hreg.
-    rewrite (IH _ Hf). rewrite map_app. cbn [map]. rewrite Hc. now rewrite <- app_assoc.
-  - destruct Hit as (Hfirst & Hinit & Hconts & _).
-    cbn [render_fxitem render_fxstmt app convert_go out_item].
-    rewrite (analyse_fx ll _ Hfirst). change (f_regular (fx_fline (fs_first st))) with true. cbv iota.
-    rewrite (cont_flag_initial _ Hinit).
-    destruct (convert_go_conts ll (fs_conts st) (fs_first st) (render_fixed f) Hfirst Hconts) as (last & E & El).
-    rewrite E, El. rewrite (IH _ Hf). unfold stmt_lines. cbn [map f_conv fx_fline app].
-    rewrite <- !app_assoc. reflexivity.
-Qed.
-
-Theorem convert_file ll f :
-  Forall wf_item f -> convert_to_free ll (render_fixed f) = flat_map out_item f.
-Proof. intros H. unfold convert_to_free. rewrite (convert_go_file ll f [] H). reflexivity. Qed.
-
+(* the converted text of a statement line *)
+Definition stmt_conv (l : fxline) : str := label_part l ++ fx_field l ++ [nl].
 (* ---------- where the converter finds the inline comment ---------- *)
 
 Lemma lit_end_app st a b : lit_end st (a ++ b) = lit_end (lit_end st a) b.
@@ -503,8 +430,8 @@ Qed.
 (* the converted statement text of a line up to its inline comment *)
 Definition fx_stmt_part (l : fxline) : str := label_part l ++ fx_code l.
 
-Lemma stmt_part_clear l :
-  wf_fxline l -> comment_free None (fx_text l) = true -> lit_end None (fx_text l) = None ->
+Lemma stmt_part_clear ll l :
+  wf_fxline ll l -> comment_free None (fx_text l) = true -> lit_end None (fx_text l) = None ->
   comment_free None (fx_stmt_part l) = true /\ lit_end None (fx_stmt_part l) = None.
 Proof.
   intros (_ & Hlab & _) Hc He. unfold fx_stmt_part, fx_code.
@@ -514,10 +441,6 @@ Proof.
   rewrite !comment_free_app, !lit_end_app, A1, A2, B1, B2, Hc, He, C1, C2. split; reflexivity.
 Qed.
 
-Lemma firstn_exact {A} (a b : list A) : firstn (length a) (a ++ b) = a.
-Proof. induction a as [|x a IH]; simpl; [now destruct b|now rewrite IH]. Qed.
-Lemma skipn_exact {A} (a b : list A) : skipn (length a) (a ++ b) = b.
-Proof. induction a as [|x a IH]; simpl; [reflexivity|exact IH]. Qed.
 
 Lemma lstrip_ws_app zs rest : Forall (fun c => is_space c = true) zs -> lstrip (zs ++ rest) = lstrip rest.
 Proof. induction 1 as [|z zs Hz _ IH]; [reflexivity|]. simpl. now rewrite Hz. Qed.
@@ -544,10 +467,49 @@ Proof.
   unfold nslast. rewrite rev_app_distr. destruct (rev t) as [|c r]; [tauto|]. simpl. auto.
 Qed.
 
-Lemma rstrip_stmt_part l : wf_fxline l ->
-  rstrip (fx_stmt_part l) = label_part l ++ spaces (fx_ind l) ++ fx_text l.
+Lemma lstrip_app_ne u v : lstrip u <> [] -> lstrip (u ++ v) = lstrip u ++ v.
 Proof.
-  intros (_ & _ & _ & Hl & _). unfold fx_stmt_part, fx_code.
+  induction u as [|a u IH]; [intros H; exfalso; now apply H|]. cbn [app lstrip].
+  destruct (is_space a); [exact IH|reflexivity].
+Qed.
+
+Lemma rstrip_app_ns p c x : is_space c = false -> rstrip (p ++ c :: x) = p ++ c :: rstrip x.
+Proof.
+  intros H. unfold rstrip. rewrite rev_app_distr. cbn [rev].
+  rewrite lstrip_app_ne; rewrite (lstrip_snoc_ns (rev x) c H).
+  - rewrite rev_app_distr, rev_involutive, rev_app_distr. reflexivity.
+  - destruct (lstrip (rev x)); discriminate.
+Qed.
+
+Lemma length_lstrip_le x : length (lstrip x) <= length x.
+Proof. induction x as [|a x IH]; [reflexivity|]. cbn [lstrip]. destruct (is_space a); simpl; lia. Qed.
+Lemma length_rstrip_le x : length (rstrip x) <= length x.
+Proof. unfold rstrip. rewrite rev_length. etransitivity; [apply length_lstrip_le|]. now rewrite rev_length. Qed.
+
+Lemma lstrip_idem z : lstrip (lstrip z) = lstrip z.
+Proof.
+  destruct (lstrip z) as [|d z'] eqn:E; [reflexivity|]. now rewrite (lstrip_ns d z' (lstrip_head_ns _ _ _ E)).
+Qed.
+Lemma rstrip_idem x : rstrip (rstrip x) = rstrip x.
+Proof. unfold rstrip. rewrite rev_involutive. f_equal. apply lstrip_idem. Qed.
+
+Lemma label_part_length ll l : wf_fxline ll l -> length (label_part l) <= 6.
+Proof.
+  intros (Hlen & _). unfold label_part.
+  assert (H : length (strip (fx_label l)) <= 5).
+  { unfold strip. etransitivity; [apply length_rstrip_le|]. etransitivity; [apply length_lstrip_le|]. lia. }
+  destruct (strip (fx_label l)) as [|d ds]; [simpl; lia|].
+  rewrite app_length. unfold lower. rewrite map_length. simpl in *. lia.
+Qed.
+
+Definition text_part (l : fxline) : str := label_part l ++ spaces (fx_ind l) ++ fx_text l.
+
+Lemma text_part_length l : length (text_part l) = text_width l.
+Proof. unfold text_part, text_width. rewrite !app_length. unfold spaces. rewrite repeat_length. lia. Qed.
+
+Lemma rstrip_stmt_part ll l : wf_fxline ll l -> rstrip (fx_stmt_part l) = text_part l.
+Proof.
+  intros (_ & _ & _ & Hl & _). unfold fx_stmt_part, fx_code, text_part.
   replace (label_part l ++ spaces (fx_ind l) ++ fx_text l ++ spaces (fx_pad l))
     with ((label_part l ++ spaces (fx_ind l) ++ fx_text l) ++ spaces (fx_pad l))
     by (now rewrite <- !app_assoc).
@@ -555,35 +517,333 @@ Proof.
   rewrite app_assoc. now apply nslast_app.
 Qed.
 
-(* a statement line that is continued: " &" goes after the statement text, before the comment *)
+(* the converted statement line without its trailing blanks *)
+Definition stripped_conv (l : fxline) : str :=
+  match fx_comment l with
+  | None => text_part l
+  | Some t => fx_stmt_part l ++ bang :: rstrip t
+  end.
+
+Lemma rstrip_stmt_conv ll l : wf_fxline ll l -> rstrip (stmt_conv l) = stripped_conv l.
+Proof.
+  intros H. unfold stmt_conv, fx_field, stripped_conv.
+  destruct (fx_comment l) as [t|]; cbn [render_comment].
+  - replace (label_part l ++ (fx_code l ++ bang :: t) ++ [nl]) with ((fx_stmt_part l ++ bang :: t) ++ [nl])
+      by (unfold fx_stmt_part; now rewrite <- !app_assoc).
+    rewrite rstrip_app_ws by (constructor; [reflexivity|constructor]).
+    now apply rstrip_app_ns.
+  - rewrite app_nil_r. replace (label_part l ++ fx_code l ++ [nl]) with (fx_stmt_part l ++ [nl])
+      by (unfold fx_stmt_part; now rewrite <- !app_assoc).
+    rewrite rstrip_app_ws by (constructor; [reflexivity|constructor]).
+    apply (rstrip_stmt_part ll l H).
+Qed.
+
+Lemma stripped_conv_length ll l : wf_fxline ll l -> fx_seq l <> None -> length (stripped_conv l) <= 72.
+Proof.
+  intros H Hs. pose proof (label_part_length ll l H) as Hlp.
+  destruct H as (_ & _ & _ & _ & Hw & _). destruct (fx_seq l) as [sq|]; [|congruence].
+  destruct Hw as (_ & Hw & _). unfold field_width in Hw. unfold stripped_conv.
+  destruct (fx_comment l) as [t|]; cbn [render_comment length] in Hw.
+  - unfold fx_stmt_part, fx_code. rewrite !app_length. cbn [length]. unfold spaces. rewrite !repeat_length.
+    pose proof (length_rstrip_le t). lia.
+  - rewrite text_part_length. unfold text_width. lia.
+Qed.
+
+Lemma ljust_length n x : length x <= n -> length (ljust n x) = n.
+Proof. intros H. unfold ljust. rewrite app_length, repeat_length. lia. Qed.
+
+(* the text of a statement line that is continued: " &" goes after the statement text, before the
+   inline comment *)
 Definition cont_text (l : fxline) : str :=
-  (label_part l ++ spaces (fx_ind l) ++ fx_text l) ++
+  text_part l ++
   match fx_comment l with
   | None => s " &"
   | Some t => s " & " ++ bang :: rstrip t
   end.
 
-Lemma conv_continued l :
-  wf_fxline l -> comment_free None (fx_text l) = true -> lit_end None (fx_text l) = None ->
-  fx_conv_continued l = cont_text l ++ [nl].
+(* the scan of a line: no '!' outside literals in its text, and its text ends outside a literal
+   if it carries an inline comment *)
+Definition line_ok (l : fxline) : Prop :=
+  comment_free None (fx_text l) = true /\
+  match fx_comment l with Some _ => lit_end None (fx_text l) = None | None => True end.
+
+Lemma text_part_free ll l ws :
+  wf_fxline ll l -> comment_free None (fx_text l) = true -> Forall (fun c => is_space c = true) ws ->
+  comment_free None (text_part l ++ ws) = true.
 Proof.
-  unfold cont_text.
-  intros Hwf Hc He. destruct (stmt_part_clear l Hwf Hc He) as (P1 & P2).
-  assert (E : fx_conv l = fx_stmt_part l ++ render_comment (fx_comment l) ++ [nl]).
-  { unfold fx_conv, fx_field, fx_stmt_part. now rewrite <- !app_assoc. }
-  unfold fx_conv_continued, insert_continuation, inline_comment_start. cbn [from skipn]. rewrite E.
-  rewrite (scan_text _ None 0 _ P1), P2.
-  destruct (fx_comment l) as [t|]; cbn [render_comment].
-  - assert (B : forall i r, inline_comment_from None i (bang :: r) = Some i) by reflexivity.
-    cbn [app]. rewrite B.
-    cbv zeta. rewrite !Nat.add_0_r, firstn_exact, skipn_exact, (rstrip_stmt_part l Hwf).
-    change (bang :: t ++ [nl]) with ((bang :: t) ++ [nl]).
-    rewrite rstrip_app_ws by (constructor; [reflexivity|constructor]).
-    rewrite rstrip_cons_ns by reflexivity. rewrite <- !app_assoc. reflexivity.
-  - cbn [app]. assert (N : inline_comment_from None (length (fx_stmt_part l) + 0) [nl] = None) by reflexivity.
-    rewrite N.
-    rewrite rstrip_app_ws by (constructor; [reflexivity|constructor]).
-    rewrite (rstrip_stmt_part l Hwf). reflexivity.
+  intros Hwf Hc Hws. destruct (neutral_clear _ (ws_neutral _ Hws)) as (C1 & _).
+  unfold text_part. pose proof Hwf as (_ & Hlab & _).
+  destruct (neutral_clear _ (label_part_neutral l Hlab)) as (A1 & A2).
+  destruct (neutral_clear _ (ws_neutral _ (spaces_ws (fx_ind l)))) as (B1 & B2).
+  rewrite <- !app_assoc. rewrite comment_free_app, A1, A2. rewrite comment_free_app, B1, B2.
+  rewrite comment_free_app, Hc. cbn [andb].
+  (* blanks are comment-free in any character context *)
+  clear - Hws. generalize (lit_end None (fx_text l)). induction Hws as [|c ws Hc _ IH]; intros st; [reflexivity|].
+  cbn [comment_free]. assert (Hb : Ascii.eqb c bang = false).
+  { destruct (Ascii.eqb c bang) eqn:E; [apply Ascii.eqb_eq in E; subst; discriminate|reflexivity]. }
+  destruct st; [apply IH|]. rewrite Hb. apply IH.
+Qed.
+
+(* where the converter's scanner stops in the stripped line *)
+Lemma scan_stripped ll l ws :
+  wf_fxline ll l -> line_ok l -> Forall (fun c => is_space c = true) ws ->
+  inline_comment_start (stripped_conv l ++ ws)
+  = match fx_comment l with None => None | Some _ => Some (length (fx_stmt_part l)) end.
+Proof.
+  intros Hwf (Hc & He) Hws. unfold inline_comment_start, stripped_conv.
+  destruct (fx_comment l) as [t|].
+  - destruct (stmt_part_clear ll l Hwf Hc He) as (P1 & P2).
+    rewrite <- app_assoc. rewrite (scan_text _ None 0 _ P1), P2. cbn [app]. now rewrite Nat.add_0_r.
+  - pose proof (text_part_free ll l ws Hwf Hc Hws) as Q.
+    rewrite <- (app_nil_r (text_part l ++ ws)). now rewrite (scan_text _ None 0 [] Q).
+Qed.
+
+Lemma insert_cont_stripped ll l ws :
+  wf_fxline ll l -> comment_free None (fx_text l) = true -> lit_end None (fx_text l) = None ->
+  Forall (fun c => is_space c = true) ws ->
+  insert_continuation (stripped_conv l ++ ws) 0 = cont_text l.
+Proof.
+  intros Hwf Hc He Hws.
+  assert (Hok : line_ok l) by (split; [exact Hc|destruct (fx_comment l); auto]).
+  unfold insert_continuation. cbn [from skipn]. rewrite (scan_stripped ll l ws Hwf Hok Hws).
+  unfold stripped_conv, cont_text. destruct (fx_comment l) as [t|].
+  - cbv zeta. rewrite <- app_assoc.
+    rewrite !Nat.add_0_r, firstn_exact, skipn_exact, (rstrip_stmt_part ll l Hwf).
+    change ((bang :: rstrip t) ++ ws) with (bang :: rstrip t ++ ws).
+    change (bang :: rstrip t ++ ws) with ((bang :: rstrip t) ++ ws).
+    rewrite rstrip_app_ws by assumption.
+    rewrite rstrip_cons_ns by reflexivity. now rewrite rstrip_idem.
+  - rewrite rstrip_app_ws by assumption.
+    rewrite <- (rstrip_stmt_part ll l Hwf), rstrip_idem. reflexivity.
+Qed.
+
+(* ---------- the line stack, continued ---------- *)
+
+Definition has_seq (l : fxline) : bool := match fx_seq l with Some _ => true | None => false end.
+Definition fx_excess (l : fxline) : str :=
+  match fx_seq l, fx_comment l with
+  | Some sq, None => bang :: " "%char :: sq ++ [nl]
+  | Some _, Some _ => [nl]
+  | None, _ => []
+  end.
+Definition fx_conv (l : fxline) : str :=
+  match fx_seq l, fx_comment l with
+  | None, _ => stmt_conv l
+  | Some _, None => ljust 72 (stripped_conv l) ++ fx_excess l
+  | Some _, Some _ => stripped_conv l ++ [nl]
+  end.
+Definition fx_fline (l : fxline) : fline :=
+  {| f_conv := fx_conv l; f_regular := true;
+     f_cont := negb (is_space (fx_c6 l) || Ascii.eqb (fx_c6 l) "0"%char);
+     f_long := has_seq l; f_omp := false; f_excess := fx_excess l |}.
+
+Lemma analyse_fx ll l : wf_fxline ll l -> line_ok l -> analyse ll (render_fxline l) = fx_fline l.
+Proof.
+  intros Hwf Hok. pose proof Hwf as (Hlen & Hlab & Hns & _ & Hw & _ & _ & Hbang).
+  unfold render_fxline.
+  replace (fx_label l ++ fx_c6 l :: fx_field l ++ seq_text l ++ [nl])
+    with (fx_label l ++ fx_c6 l :: (fx_field l ++ seq_text l) ++ [nl]) by (now rewrite <- app_assoc).
+  rewrite analyse_stmt; try assumption.
+  - fold (field_width l) in *. assert (Hfl : length (fx_field l) = field_width l) by apply fx_field_length.
+    pose proof (scan_stripped ll l [] Hwf Hok (Forall_nil _)) as Hscan. rewrite app_nil_r in Hscan.
+    pose proof (rstrip_stmt_conv ll l Hwf) as Hstrip. unfold stmt_conv in Hstrip.
+    unfold fx_fline, fx_conv, fx_excess, has_seq, stmt_conv, seq_text in *. cbv zeta.
+    change (lpart (fx_label l)) with (label_part l).
+    destruct (fx_seq l) as [sq|].
+    + destruct Hw as (-> & Hw & Hne & _).
+      assert (Hlong : (66 <? length (fx_field l ++ sq)) && true = true).
+      { rewrite andb_true_r. apply Nat.ltb_lt. rewrite app_length. destruct sq; [congruence|]. simpl. lia. }
+      rewrite Hlong. rewrite <- Hw, <- Hfl, firstn_exact, skipn_exact. rewrite Hstrip, Hscan.
+      destruct (fx_comment l); reflexivity.
+    + assert (Hlong : (66 <? length (fx_field l ++ [])) && ll = false).
+      { destruct ll; [|apply andb_false_r]. rewrite andb_true_r, app_nil_r. apply Nat.ltb_ge.
+        specialize (Hw eq_refl). lia. }
+      rewrite Hlong, app_nil_r. reflexivity.
+  - unfold nsfirst in Hns. destruct (fx_text l) as [|t0 tx] eqn:Et; [destruct Hns|].
+    apply (strip_nonblank _ t0); [|exact Hns].
+    apply in_or_app. right. right. apply in_or_app. left. apply in_or_app. left.
+    unfold fx_field, fx_code. rewrite Et.
+    apply in_or_app. left. apply in_or_app. right. left. reflexivity.
+  - destruct (length5 _ Hlen) as (a & b & c & d & e & El). rewrite El in *.
+    inversion Hlab as [|? ? Ha Hl1]; subst. inversion Hl1 as [|? ? Hb Hl2]; subst.
+    inversion Hl2 as [|? ? Hc Hl3]; subst. inversion Hl3 as [|? ? Hd Hl4]; subst.
+    inversion Hl4 as [|? ? He _]; subst.
+    apply bang_first_stmt; try assumption. intros H6. specialize (Hbang H6).
+    unfold fx_field, fx_code. rewrite <- !app_assoc, lstrip_spaces.
+    unfold nsfirst in Hns. destruct (fx_text l) as [|t0 tx]; [destruct Hns|].
+    cbn [app]. rewrite (lstrip_ns t0 _ Hns). cbn [s list_ascii_of_string starts_with]. fold bang.
+    cbn [head_is] in Hbang. now rewrite Hbang.
+Qed.
+
+Lemma cont_flag_initial l : is_initial l -> f_cont (fx_fline l) = false.
+Proof. intros [H|H]; cbn [fx_fline f_cont]; rewrite H; reflexivity. Qed.
+
+Lemma cont_flag_continuation l : is_continuation l -> f_cont (fx_fline l) = true.
+Proof.
+  intros (H1 & H2 & _). cbn [fx_fline f_cont]. rewrite H1.
+  assert (E : Ascii.eqb (fx_c6 l) "0"%char = false) by now apply Ascii.eqb_neq.
+  now rewrite E.
+Qed.
+
+(* the converted text of a statement line when it is followed by a continuation line *)
+Definition fx_conv_continued (l : fxline) : str := f_conv (continue_line (fx_fline l)).
+
+Lemma map_conv_irr ll irrs : Forall wf_fxirr irrs ->
+  map f_conv (map (fun i => analyse ll (render_fxirr i)) irrs) = map irr_conv irrs.
+Proof.
+  intros H. induction H as [|i irrs Hi _ IH]; [reflexivity|].
+  cbn [map]. rewrite IH. f_equal. apply (analyse_irr ll i Hi).
+Qed.
+
+Lemma last_cons_default {A} (x : A) xs d1 d2 : List.last (x :: xs) d1 = List.last (x :: xs) d2.
+Proof. revert x. induction xs as [|y xs IH]; intros x; [reflexivity|]. simpl in *. apply IH. Qed.
+
+Definition last_line (prev : fxline) (conts : list (list fxirr * fxline)) : fxline :=
+  List.last (map snd conts) prev.
+
+(* continuation lines of one statement, with the previous statement line on the stack *)
+Lemma convert_go_conts ll conts : forall prev rest,
+  wf_fxline ll prev ->
+  Forall (fun p => Forall wf_fxirr (fst p) /\ wf_fxline ll (snd p) /\ is_continuation (snd p)) conts ->
+  Forall (fun p => line_ok (snd p)) conts ->
+  exists last,
+    convert_go ll [fx_fline prev]
+      (flat_map (fun p => map render_fxirr (fst p) ++ [render_fxline (snd p)]) conts ++ rest)
+    = flat_map (fun q => fx_conv_continued (fst q) :: map irr_conv (snd q))
+               (combine (prev :: map snd conts) (map fst conts))
+      ++ convert_go ll [fx_fline last] rest
+    /\ last = last_line prev conts.
+Proof.
+  induction conts as [|[irrs k] conts IH]; intros prev rest Hp Hc Hok.
+  - exists prev. split; reflexivity.
+  - inversion Hc as [|? ? (Hi & Hk & Hkc) Hr]; subst. inversion Hok as [|? ? Hok1 Hok2]; subst.
+    cbn [fst snd] in *.
+    cbn [flat_map]. rewrite <- !app_assoc. rewrite convert_go_irr by assumption.
+    cbn [app convert_go fst snd]. rewrite (analyse_fx ll k Hk Hok1).
+    change (f_regular (fx_fline k)) with true. cbv iota. rewrite (cont_flag_continuation k Hkc).
+    cbn [app map]. fold (fx_conv_continued prev).
+    rewrite (map_conv_irr ll irrs Hi).
+    destruct (IH k rest Hk Hr Hok2) as (last & E & El). exists last. split.
+    + cbn [map combine flat_map fst snd]. rewrite E.
+      cbn [app]. rewrite <- app_assoc. reflexivity.
+    + rewrite El. unfold last_line. cbn [map snd]. destruct conts as [|p conts]; [reflexivity|].
+      cbn [map]. change (List.last (k :: snd p :: map snd conts) prev) with (List.last (snd p :: map snd conts) prev).
+      apply last_cons_default.
+Qed.
+
+(* ---------- the whole file through the converter ---------- *)
+
+(* [P]: which comment and blank lines are admitted *)
+Definition wf_conts_of (ll : bool) (P : fxirr -> Prop) (conts : list (list fxirr * fxline)) : Prop :=
+  Forall (fun p => Forall P (fst p) /\ wf_fxline ll (snd p) /\ is_continuation (snd p)) conts.
+Definition wf_stmt_of (ll : bool) (P : fxirr -> Prop) (st : fxstmt) : Prop :=
+  wf_fxline ll (fs_first st) /\ is_initial (fs_first st) /\ wf_conts_of ll P (fs_conts st) /\
+  texts_ok None (fs_first st) (fs_conts st).
+Definition wf_item_of (ll : bool) (P : fxirr -> Prop) (it : fxitem) : Prop :=
+  match it with FxIrr i => P i | FxStmt st => wf_stmt_of ll P st end.
+
+(* [ll]: the length-limit setting the file is meant for *)
+Definition wf_conts (ll : bool) := wf_conts_of ll wf_fxirr.
+Definition wf_stmt (ll : bool) := wf_stmt_of ll wf_fxirr.
+Definition wf_item (ll : bool) := wf_item_of ll wf_fxirr.
+
+Definition stmt_lines (st : fxstmt) : list str :=
+  flat_map (fun q => fx_conv_continued (fst q) :: map irr_conv (snd q))
+           (combine (fs_first st :: map snd (fs_conts st)) (map fst (fs_conts st)))
+  ++ [fx_conv (last_line (fs_first st) (fs_conts st))].
+Definition out_item (it : fxitem) : list str :=
+  match it with FxIrr i => [irr_conv i] | FxStmt st => stmt_lines st end.
+
+(* every line of the file scans as a line on its own *)
+Definition ok_item (it : fxitem) : Prop :=
+  match it with
+  | FxIrr _ => True
+  | FxStmt st => line_ok (fs_first st) /\ Forall (fun p => line_ok (snd p)) (fs_conts st)
+  end.
+
+Lemma convert_go_file ll f : forall stack,
+  Forall (wf_item ll) f -> Forall ok_item f ->
+  convert_go ll stack (render_fixed f) = map f_conv stack ++ flat_map out_item f.
+Proof.
+  induction f as [|it f IH]; intros stack H Hok; [simpl; now rewrite app_nil_r|].
+  inversion H as [|? ? Hit Hf]; subst. inversion Hok as [|? ? Hok1 Hok2]; subst.
+  unfold render_fixed. cbn [flat_map]. fold (render_fixed f).
+  destruct it as [i|st].
+  - cbn [render_fxitem app convert_go out_item].
+    destruct (analyse_irr ll i Hit) as (Hc & Hreg). rewrite Hreg.
+    rewrite (IH _ Hf Hok2). rewrite map_app. cbn [map]. rewrite Hc. now rewrite <- app_assoc.
+  - destruct Hit as (Hfirst & Hinit & Hconts & _). destruct Hok1 as (Hokf & Hokc).
+    cbn [render_fxitem render_fxstmt app convert_go out_item].
+    rewrite (analyse_fx ll _ Hfirst Hokf). change (f_regular (fx_fline (fs_first st))) with true. cbv iota.
+    rewrite (cont_flag_initial _ Hinit).
+    destruct (convert_go_conts ll (fs_conts st) (fs_first st) (render_fixed f) Hfirst Hconts Hokc) as (last & E & El).
+    rewrite E, El. rewrite (IH _ Hf Hok2). unfold stmt_lines. cbn [map f_conv fx_fline app].
+    rewrite <- !app_assoc. reflexivity.
+Qed.
+
+Theorem convert_file ll f :
+  Forall (wf_item ll) f -> Forall ok_item f -> convert_to_free ll (render_fixed f) = flat_map out_item f.
+Proof. intros H Hok. unfold convert_to_free. rewrite (convert_go_file ll f [] H Hok). reflexivity. Qed.
+
+(* the whole converted line, continued or last, without its newline *)
+Definition cont_line (l : fxline) : str :=
+  match fx_seq l, fx_comment l with
+  | Some sq, None => ljust 72 (cont_text l) ++ bang :: " "%char :: sq
+  | _, _ => cont_text l
+  end.
+Definition last_text (l : fxline) : str :=
+  match fx_seq l, fx_comment l with
+  | None, _ => label_part l ++ fx_field l
+  | Some sq, None => ljust 72 (stripped_conv l) ++ bang :: " "%char :: sq
+  | Some _, Some _ => stripped_conv l
+  end.
+
+Lemma conv_last l : fx_conv l = last_text l ++ [nl].
+Proof.
+  unfold fx_conv, last_text, fx_excess.
+  destruct (fx_seq l) as [sq|]; destruct (fx_comment l) as [t|]; try reflexivity;
+    try (unfold stmt_conv; now rewrite <- app_assoc).
+Qed.
+
+Lemma conv_continued ll l :
+  wf_fxline ll l -> comment_free None (fx_text l) = true -> lit_end None (fx_text l) = None ->
+  fx_conv_continued l = cont_line l ++ [nl].
+Proof.
+  intros Hwf Hc He. unfold fx_conv_continued, continue_line, cont_line.
+  cbn [fx_fline f_conv f_long f_regular f_omp f_excess]. unfold has_seq, fx_conv, fx_excess.
+  assert (Hnl : Forall (fun c => is_space c = true) [nl]) by (constructor; [reflexivity|constructor]).
+  destruct (fx_seq l) as [sq|] eqn:Es; cbn [andb negb orb].
+  - destruct (fx_comment l) as [t|] eqn:Ec.
+    + (* the excess was dropped: the line is continued like a short one *)
+      change (str_eqb [nl] [nl]) with true. cbv iota.
+      now rewrite (insert_cont_stripped ll l [nl] Hwf Hc He Hnl).
+    + change (str_eqb (bang :: " "%char :: sq ++ [nl]) [nl]) with false. cbv iota.
+      assert (Hlen : length (stripped_conv l) <= 72).
+      { apply (stripped_conv_length ll l Hwf). congruence. }
+      rewrite <- (ljust_length 72 (stripped_conv l) Hlen) at 2. rewrite firstn_exact.
+      unfold ljust at 2. rewrite (insert_cont_stripped ll l _ Hwf Hc He (spaces_ws _)).
+      rewrite <- app_assoc. reflexivity.
+  - (* the scan of the unstripped line: trailing blanks and the newline change nothing *)
+    unfold stmt_conv, fx_field, insert_continuation, inline_comment_start. cbn [from skipn].
+    destruct (stmt_part_clear ll l Hwf Hc He) as (P1 & P2).
+    unfold cont_text.
+    destruct (fx_comment l) as [t|]; cbn [render_comment].
+    + replace (label_part l ++ (fx_code l ++ bang :: t) ++ [nl]) with (fx_stmt_part l ++ bang :: t ++ [nl])
+        by (unfold fx_stmt_part; now rewrite <- !app_assoc).
+      rewrite (scan_text _ None 0 _ P1), P2.
+      assert (B : forall i r, inline_comment_from None i (bang :: r) = Some i) by reflexivity.
+      rewrite B. cbv zeta.
+      rewrite !Nat.add_0_r, firstn_exact, skipn_exact, (rstrip_stmt_part ll l Hwf).
+      change (bang :: t ++ [nl]) with ((bang :: t) ++ [nl]).
+      rewrite rstrip_app_ws by assumption.
+      rewrite rstrip_cons_ns by reflexivity. rewrite <- !app_assoc. reflexivity.
+    + rewrite app_nil_r.
+      replace (label_part l ++ fx_code l ++ [nl]) with (fx_stmt_part l ++ [nl])
+        by (unfold fx_stmt_part; now rewrite <- !app_assoc).
+      rewrite (scan_text _ None 0 _ P1), P2.
+      assert (N : inline_comment_from None (length (fx_stmt_part l) + 0) [nl] = None) by reflexivity.
+      rewrite N. rewrite rstrip_app_ws by assumption.
+      rewrite (rstrip_stmt_part ll l Hwf). reflexivity.
 Qed.
 
 (* ---------- each converted line is the free-form line of the equivalent layout ---------- *)
@@ -591,28 +851,56 @@ Qed.
 Lemma chomp_snoc x : chomp (x ++ [nl]) = x.
 Proof. unfold chomp. rewrite rev_app_distr. cbn [rev app]. rewrite Ascii.eqb_refl. apply rev_involutive. Qed.
 
-Lemma line_continued l irr first :
-  wf_fxline l -> comment_free None (fx_text l) = true -> lit_end None (fx_text l) = None ->
-  chomp (fx_conv_continued l) = render_seg_line first false (seg_cont l irr).
+Lemma seg_prefix l : spaces (seg_ind l) ++ seg_head l = label_part l ++ spaces (fx_ind l).
 Proof.
-  intros H Hc He. rewrite (conv_continued l H Hc He), chomp_snoc.
-  unfold cont_text, render_seg_line, seg_cont.
-  change (s " & ") with [" "%char; amp; " "%char]. change (s " &") with [" "%char; amp].
-  destruct (fx_comment l) as [t|]; cbn [option_map];
-    (destruct (label_part l) as [|c lp] eqn:E;
-     cbn [sg_amp sg_ind sg_text sg_trail sg_comment render_comment spaces repeat app];
-     destruct first; cbn [app]; rewrite ?app_nil_r, <- ?app_assoc; cbn [app]; reflexivity).
+  unfold seg_ind, seg_head. destruct (label_part l) as [|c lp]; [now rewrite app_nil_r|reflexivity].
 Qed.
 
-Lemma line_last l first : wf_fxline l ->
+Lemma render_cont l irr first :
+  render_seg_line first false (seg_cont l irr)
+  = (text_part l ++ [" "%char; amp]) ++ spaces (cont_trail l) ++ render_comment (cont_comment l).
+Proof.
+  unfold render_seg_line, seg_cont. cbn [sg_amp sg_ind sg_text sg_trail sg_comment].
+  assert (E : (if first then [] else []) = @nil ascii) by now destruct first. rewrite E. cbn [app].
+  rewrite !app_assoc, seg_prefix. unfold text_part. now rewrite <- !app_assoc.
+Qed.
+
+Lemma render_last l first :
+  render_seg_line first true (seg_last l)
+  = text_part l ++ spaces (last_trail l) ++ render_comment (last_comment l).
+Proof.
+  unfold render_seg_line, seg_last. cbn [sg_amp sg_ind sg_text sg_trail sg_comment].
+  assert (E : (if first then [] else []) = @nil ascii) by now destruct first. rewrite E. cbn [app].
+  rewrite app_nil_r, !app_assoc, seg_prefix. unfold text_part. now rewrite <- !app_assoc.
+Qed.
+
+Lemma line_continued ll l irr first :
+  wf_fxline ll l -> comment_free None (fx_text l) = true -> lit_end None (fx_text l) = None ->
+  chomp (fx_conv_continued l) = render_seg_line first false (seg_cont l irr).
+Proof.
+  intros H Hc He. rewrite (conv_continued ll l H Hc He), chomp_snoc, render_cont.
+  unfold cont_line, cont_text, cont_trail, cont_comment.
+  change (s " & ") with [" "%char; amp; " "%char]. change (s " &") with [" "%char; amp].
+  destruct (fx_seq l) as [sq|]; destruct (fx_comment l) as [t|];
+    cbn [option_map render_comment spaces repeat app]; unfold ljust; rewrite ?app_nil_r.
+  - rewrite <- !app_assoc. reflexivity.
+  - rewrite !app_length, text_part_length. cbn [length app].
+    rewrite <- !app_assoc. cbn [app]. reflexivity.
+  - rewrite <- !app_assoc. reflexivity.
+  - reflexivity.
+Qed.
+
+Lemma line_last ll l first : wf_fxline ll l ->
   chomp (fx_conv l) = render_seg_line first true (seg_last l).
 Proof.
-  intros H. unfold fx_conv, fx_field, fx_code. rewrite !app_assoc. rewrite chomp_snoc.
-  unfold render_seg_line, seg_last. destruct (label_part l) as [|c lp] eqn:E.
-  - cbn [sg_amp sg_ind sg_text sg_trail sg_comment spaces repeat app].
-    destruct first; cbn [app]; rewrite ?app_nil_r, <- ?app_assoc; reflexivity.
-  - cbn [sg_amp sg_ind sg_text sg_trail sg_comment spaces repeat app].
-    destruct first; cbn [app]; rewrite ?app_nil_r, <- ?app_assoc; reflexivity.
+  intros H. rewrite conv_last, chomp_snoc, render_last.
+  unfold last_text, last_trail, last_comment, stripped_conv, fx_field.
+  destruct (fx_seq l) as [sq|]; destruct (fx_comment l) as [t|];
+    cbn [render_comment]; unfold ljust; rewrite ?app_nil_r.
+  - unfold fx_stmt_part, fx_code, text_part. rewrite <- !app_assoc. reflexivity.
+  - rewrite text_part_length. rewrite <- !app_assoc. reflexivity.
+  - unfold fx_code, text_part. rewrite <- !app_assoc. reflexivity.
+  - unfold fx_code, text_part. rewrite <- !app_assoc. reflexivity.
 Qed.
 
 Lemma line_irr i : chomp (irr_conv i) = render_bline (bline_of i).
@@ -640,8 +928,8 @@ Proof.
   split; [exact T1|]. split; [exact C1|]. now apply IH.
 Qed.
 
-Lemma stmt_lines_free conts : forall l first,
-  wf_fxline l -> wf_conts conts -> conts_clear l conts ->
+Lemma stmt_lines_free ll conts : forall l first,
+  wf_fxline ll l -> wf_conts ll conts -> conts_clear l conts ->
   map chomp (flat_map (fun q => fx_conv_continued (fst q) :: map irr_conv (snd q))
                       (combine (l :: map snd conts) (map fst conts))
              ++ [fx_conv (last_line l conts)])
@@ -649,7 +937,7 @@ Lemma stmt_lines_free conts : forall l first,
 Proof.
   induction conts as [|[irr k] conts IH]; intros l first Hl Hc Hcl.
   - cbn [map combine flat_map app segs_of render_segs]. unfold last_line. cbn [map List.last].
-    now rewrite (line_last l first Hl).
+    now rewrite (line_last ll l first Hl).
   - inversion Hc as [|? ? (Hi & Hk & Hkc) Hr]; subst. cbn [fst snd] in *.
     destruct Hcl as (Hcf & Hle & Hcl).
     change (combine (l :: map snd ((irr, k) :: conts)) (map fst ((irr, k) :: conts)))
@@ -661,7 +949,7 @@ Proof.
       apply last_cons_default. }
     rewrite Hlast. rewrite <- app_assoc. rewrite map_app. cbn [app map]. rewrite map_app.
     specialize (IH k false Hk Hr Hcl). rewrite map_app in IH. rewrite IH.
-    rewrite (line_continued l irr first Hl Hcf Hle).
+    rewrite (line_continued ll l irr first Hl Hcf Hle).
     assert (Hirr : map chomp (map irr_conv irr) = map render_bline (map bline_of irr)).
     { clear. induction irr as [|i irr IHi]; [reflexivity|]. cbn [map]. rewrite IHi. f_equal. apply line_irr. }
     rewrite Hirr.
@@ -673,15 +961,30 @@ Proof.
             end).
     assert (Hne : segs_of k conts <> []) by (destruct conts as [|[? ?] ?]; discriminate).
     destruct (segs_of k conts) as [|sg2 segs2] eqn:Es; [congruence|].
-    f_equal. f_equal. unfold seg_cont. destruct (label_part l); reflexivity.
+    reflexivity.
+Qed.
+
+Lemma texts_lines_ok conts : forall l,
+  texts_ok None l conts -> closed_breaks l conts -> line_ok l /\ Forall (fun p => line_ok (snd p)) conts.
+Proof.
+  induction conts as [|[irr k] conts IH]; intros l Ht Hc; cbn [texts_ok closed_breaks] in *.
+  - destruct Ht as (T1 & T2 & _). split; [split; assumption|constructor].
+  - destruct Ht as (T1 & T2 & T3). destruct Hc as (C1 & C2). rewrite C1 in T3.
+    destruct (IH k T3 C2) as (K1 & K2). split; [split; assumption|]. constructor; assumption.
+Qed.
+
+Lemma items_ok ll f : Forall (wf_item ll) f -> Forall closed_item f -> Forall ok_item f.
+Proof.
+  intros H Hc. rewrite Forall_forall in *. intros it Hit. specialize (H it Hit). specialize (Hc it Hit).
+  destruct it as [i|st]; [exact I|]. destruct H as (_ & _ & _ & Ht). now apply texts_lines_ok.
 Qed.
 
 (* C14: the converter's output is, line for line, the free-form file [free_of f] *)
 Theorem fixed_as_free ll f :
-  Forall wf_item f -> Forall closed_item f ->
+  Forall (wf_item ll) f -> Forall closed_item f ->
   map chomp (convert_to_free ll (render_fixed f)) = render_file (free_of f).
 Proof.
-  intros H Hcl. rewrite (convert_file ll f H). clear ll.
+  intros H Hcl. rewrite (convert_file ll f H (items_ok ll f H Hcl)).
   induction H as [|it f Hit _ IH]; [reflexivity|].
   inversion Hcl as [|? ? Hc1 Hc2]; subst.
   cbn [flat_map free_of map]. rewrite map_app. unfold render_file in *. cbn [flat_map].
@@ -692,74 +995,157 @@ Proof.
     + now rewrite chomp_snoc.
     + now rewrite app_comm_cons, app_assoc, chomp_snoc.
   - destruct Hit as (Hfirst & _ & Hconts & Htexts). unfold stmt_lines.
-    apply (stmt_lines_free (fs_conts st) (fs_first st) true Hfirst Hconts).
+    apply (stmt_lines_free ll (fs_conts st) (fs_first st) true Hfirst Hconts).
     now apply texts_conts_clear.
 Qed.
 
 (* ---------- statement, partial theorem, witnesses ---------- *)
 
-(* where no literal is continued across a line break, the standard's equivalent is [free_of] *)
+(* where no literal is continued across a line break, the standard's equivalent is [free_of] of
+   the file cut at column 72 *)
+Definition cut_cont (p : list fxirr * fxline) : list fxirr * fxline := (fst p, cut_line (snd p)).
+
 Lemma std_segs_closed conts : forall l,
-  closed_breaks l conts -> std_segs None l conts = segs_of l conts.
+  closed_breaks l conts -> std_segs None l conts = segs_of (cut_line l) (map cut_cont conts).
 Proof.
   induction conts as [|[irr k] conts IH]; intros l H.
-  - cbn [std_segs segs_of]. unfold std_seg, seg_last. cbn [is_open]. rewrite app_nil_r.
-    destruct (label_part l); [reflexivity|]. now rewrite <- !app_assoc.
-  - destruct H as (H1 & H2). cbn [std_segs segs_of]. rewrite H1, (IH k H2). f_equal.
-    unfold std_seg, seg_cont. rewrite H1. cbn [is_open].
-    destruct (label_part l); [reflexivity|]. now rewrite <- !app_assoc.
+  - cbn [std_segs segs_of map]. unfold std_seg, seg_last, seg_ind, seg_head, last_trail, last_comment.
+    cbn [is_open cut_line fx_seq fx_comment fx_pad fx_ind fx_text]. rewrite app_nil_r.
+    change (label_part (cut_line l)) with (label_part l). destruct (label_part l); reflexivity.
+  - destruct H as (H1 & H2). cbn [std_segs segs_of map cut_cont fst snd]. rewrite H1, (IH k H2). f_equal.
+    unfold std_seg, seg_cont, seg_ind, seg_head, cont_trail, cont_comment. rewrite H1.
+    cbn [is_open cut_line fx_seq fx_comment fx_pad fx_ind fx_text].
+    change (label_part (cut_line l)) with (label_part l).
+    destruct (label_part l); destruct (fx_comment l); reflexivity.
 Qed.
 
-Lemma std_free_closed f : Forall closed_item f -> std_free_of f = free_of f.
+Definition cut_file (f : list fxitem) : list fxitem := map cut_item f.
+
+Lemma std_free_closed f : Forall closed_item f -> std_free_of f = free_of (cut_file f).
 Proof.
-  induction 1 as [|it f Hit _ IH]; [reflexivity|]. unfold std_free_of, free_of in *. cbn [map].
-  rewrite IH. f_equal. destruct it as [i|st]; [reflexivity|]. cbn [std_item free_item].
+  induction 1 as [|it f Hit _ IH]; [reflexivity|]. unfold std_free_of, free_of, cut_file in *. cbn [map].
+  rewrite IH. f_equal. destruct it as [i|st]; [destruct i; reflexivity|]. cbn [std_item free_item cut_item fs_first fs_conts].
   now rewrite std_segs_closed.
 Qed.
 
-(* C14, full: a fixed-form file reads as its free-form equivalent by the standard's rules *)
-Definition statement_C14 : Prop :=
-  forall ll f, Forall wf_item f ->
-  read_all default_cfg (map chomp (convert_to_free ll (render_fixed f)))
-  = read_all default_cfg (render_file (std_free_of f)).
+(* a file without text in columns 73+ is its own cut *)
+Lemma cut_line_id l : fx_seq l = None -> cut_line l = l.
+Proof. destruct l; cbn. intros ->. reflexivity. Qed.
 
-(* ... and it holds for every file in which no character literal is continued across lines *)
+Lemma cut_file_id f : Forall no_seq_item f -> cut_file f = f.
+Proof.
+  induction 1 as [|it f Hit _ IH]; [reflexivity|]. unfold cut_file in *. cbn [map]. rewrite IH. f_equal.
+  destruct it as [i|[first conts]]; [reflexivity|]. destruct Hit as (H1 & H2). cbn [cut_item fs_first fs_conts] in *.
+  assert (Hm : map (fun p : list fxirr * fxline => (fst p, cut_line (snd p))) conts = conts).
+  { induction H2 as [|[irr k] conts Hk _ IHc]; [reflexivity|]. cbn [map fst snd] in *.
+    now rewrite IHc, (cut_line_id k Hk). }
+  now rewrite (cut_line_id first H1), Hm.
+Qed.
+
+(* the text of columns 73+ does not reach the statements: the free-form file has the same
+   statement texts as that of the file cut at column 72 *)
+Lemma joined_from_same s1 : forall s2 buf,
+  Forall2 (fun a b => sg_amp a = sg_amp b /\ sg_text a = sg_text b) s1 s2 ->
+  joined_from buf s1 = joined_from buf s2.
+Proof.
+  induction s1 as [|a s1 IH]; intros s2 buf H; inversion H as [|? b ? s2' (Ha & Ht) Hr]; subst; [reflexivity|].
+  cbn [joined_from]. rewrite Ha, Ht. now apply IH.
+Qed.
+
+Lemma joined_same s1 s2 :
+  Forall2 (fun a b => sg_amp a = sg_amp b /\ sg_text a = sg_text b) s1 s2 -> joined s1 = joined s2.
+Proof.
+  intros H. inversion H as [|a b s1' s2' (Ha & Ht) Hr]; subst; [reflexivity|].
+  cbn [joined]. rewrite Ht. now apply joined_from_same.
+Qed.
+
+Lemma segs_cut_same conts : forall l,
+  Forall2 (fun a b => sg_amp a = sg_amp b /\ sg_text a = sg_text b)
+          (segs_of (cut_line l) (map cut_cont conts)) (segs_of l conts).
+Proof.
+  induction conts as [|[irr k] conts IH]; intros l; cbn [segs_of map cut_cont fst snd].
+  - constructor; [|constructor]. split; reflexivity.
+  - constructor; [split; reflexivity|apply IH].
+Qed.
+
+Lemma texts_cut f : file_texts (free_of (cut_file f)) = file_texts (free_of f).
+Proof.
+  induction f as [|it f IH]; [reflexivity|]. unfold file_texts, free_of, cut_file in *. cbn [map flat_map].
+  rewrite IH. f_equal. destruct it as [[c0 rest|n|ind rest]|st]; try reflexivity.
+  cbn [cut_item free_item fs_first fs_conts]. f_equal.
+  apply joined_same. apply (segs_cut_same (fs_conts st) (fs_first st)).
+Qed.
+
+(* C14, full: a fixed-form file reads as its free-form equivalent by the standard's rules - the
+   same statements and documentation lines, blanks at the end of a line (which a documentation
+   comment cut at column 72 may have) not counted *)
+Definition norm_res (r : read_res) : read_res :=
+  match r with ROk ls => ROk (map rstrip ls) | e => e end.
+Definition statement_C14 : Prop :=
+  forall ll f, Forall (wf_item ll) f ->
+  norm_res (read_all default_cfg (map chomp (convert_to_free ll (render_fixed f))))
+  = norm_res (read_all default_cfg (render_file (std_free_of f))).
+
+(* ... it holds for every file in which no character literal is continued across lines and no
+   line has text in columns 73+ (with the length limit off: lines of any width) *)
 Theorem partial_C14 ll f :
-  Forall wf_item f -> Forall closed_item f ->
+  Forall (wf_item ll) f -> Forall closed_item f -> Forall no_seq_item f ->
   read_all default_cfg (map chomp (convert_to_free ll (render_fixed f)))
   = read_all default_cfg (render_file (std_free_of f)).
-Proof. intros H Hc. now rewrite (std_free_closed f Hc), (fixed_as_free ll f H Hc). Qed.
+Proof. intros H Hc Hn. now rewrite (std_free_closed f Hc), (cut_file_id f Hn), (fixed_as_free ll f H Hc). Qed.
+
+(* ... and with text in columns 73+ in the class of the reader theorem ([item_ok]: ordinary
+   comments only) *)
+Theorem partial_C14_seq ll f :
+  Forall (wf_item ll) f -> Forall closed_item f ->
+  Forall item_ok (free_of f) -> Forall item_ok (free_of (cut_file f)) ->
+  read_all default_cfg (map chomp (convert_to_free ll (render_fixed f)))
+  = read_all default_cfg (render_file (std_free_of f)).
+Proof.
+  intros H Hc H1 H2. rewrite (std_free_closed f Hc), (fixed_as_free ll f H Hc).
+  apply layout_invariance; [assumption|assumption|]. symmetry. apply texts_cut.
+Qed.
 
 Corollary fixed_statements ll f :
-  Forall wf_item f -> Forall closed_item f -> Forall item_ok (free_of f) ->
+  Forall (wf_item ll) f -> Forall closed_item f -> Forall item_ok (free_of f) ->
   read_all default_cfg (map chomp (convert_to_free ll (render_fixed f)))
   = ROk (flat_map stmts_of (file_texts (free_of f))).
 Proof. intros H1 Hc H2. rewrite (fixed_as_free ll f H1 Hc). now apply file_statements. Qed.
 
+(* ... which are the statements of the file cut at column 72 *)
+Corollary fixed_statements_cut ll f :
+  Forall (wf_item ll) f -> Forall closed_item f -> Forall item_ok (free_of f) ->
+  read_all default_cfg (map chomp (convert_to_free ll (render_fixed f)))
+  = ROk (flat_map stmts_of (file_texts (free_of (cut_file f)))).
+Proof. intros H1 Hc H2. rewrite texts_cut. now apply fixed_statements. Qed.
+
+Definition mkfxs (lab : str) (c6 : ascii) (i : nat) (t : str) (p : nat) (c sq : option str) : fxline :=
+  {| fx_label := lab; fx_c6 := c6; fx_ind := i; fx_text := t; fx_pad := p; fx_comment := c; fx_seq := sq |}.
 Definition mkfx (lab : str) (c6 : ascii) (i : nat) (t : str) (p : nat) (c : option str) : fxline :=
-  {| fx_label := lab; fx_c6 := c6; fx_ind := i; fx_text := t; fx_pad := p; fx_comment := c |}.
+  mkfxs lab c6 i t p c None.
 
 Ltac wf_tac :=
   repeat match goal with
          | |- Forall (fun c : ascii => lab_char c = true) _ => repeat constructor
          | |- Forall _ (_ :: _) => constructor
          | |- Forall _ [] => constructor
-         | |- wf_item _ => unfold wf_item
-         | |- wf_item_of _ _ => cbn [wf_item_of]
-         | |- wf_stmt_of _ _ => unfold wf_stmt_of; cbn [fs_first fs_conts]
-         | |- wf_conts_of _ _ => unfold wf_conts_of
+         | |- wf_item _ _ => unfold wf_item
+         | |- wf_item_of _ _ _ => cbn [wf_item_of]
+         | |- wf_stmt_of _ _ _ => unfold wf_stmt_of; cbn [fs_first fs_conts]
+         | |- wf_conts_of _ _ _ => unfold wf_conts_of
          | |- (_ = _) -> _ =>
-           let H := fresh in intro H; first [reflexivity | discriminate H | (vm_compute in H; discriminate H)]
-         | |- closed_item _ => cbn [closed_item fs_first fs_conts closed_breaks mkfx fx_text]
-         | |- wf_stmt _ => unfold wf_stmt; cbn [fs_first fs_conts]
-         | |- wf_conts _ => unfold wf_conts
+           let H := fresh in intro H; try discriminate H; try (vm_compute in H; discriminate H)
+         | |- closed_item _ => cbn [closed_item fs_first fs_conts closed_breaks mkfx mkfxs fx_text]
+         | |- wf_stmt _ _ => unfold wf_stmt
+         | |- wf_conts _ _ => unfold wf_conts
          | |- wf_fxirr _ => cbn [wf_fxirr]
-         | |- texts_ok _ _ _ => cbn [texts_ok mkfx fx_text fx_comment]
+         | |- texts_ok _ _ _ => cbn [texts_ok mkfx mkfxs fx_text fx_comment]
          | |- context [fst (_, _)] => cbn [fst snd]
          | |- context [snd (_, _)] => cbn [fst snd]
-         | |- wf_fxline _ => unfold wf_fxline; cbn [mkfx fx_label fx_text fx_ind fx_pad fx_comment]
+         | |- wf_fxline _ _ => unfold wf_fxline, field_width;
+                                cbn [mkfx mkfxs fx_label fx_text fx_ind fx_pad fx_comment fx_seq]
          | |- is_initial _ => (left; reflexivity) || (right; reflexivity)
-         | |- is_continuation _ => unfold is_continuation; cbn [mkfx fx_label fx_c6]
+         | |- is_continuation _ => unfold is_continuation; cbn [mkfx mkfxs fx_label fx_c6]
          | |- _ /\ _ => split
          | |- True => exact I
          | |- _ <= _ => simpl; lia
@@ -777,7 +1163,7 @@ Definition witness_literal : list fxitem :=
   [FxStmt {| fs_first := mkfx (spaces 5) " " 0 (s "s = 'ab") 0 None;
              fs_conts := [([], mkfx (spaces 5) "&" 0 (s "cd'") 0 None)] |}].
 
-Lemma witness_literal_wf : Forall wf_item witness_literal.
+Lemma witness_literal_wf : Forall (wf_item true) witness_literal.
 Proof. unfold witness_literal. wf_tac. Qed.
 
 Example literal_split_outputs :
@@ -807,7 +1193,7 @@ Definition regress_blank : list fxitem :=
              fs_conts := [([FxBlank 7], mkfx (spaces 5) "&" 2 (s "+ 2") 0 None)] |}].
 
 Example regress_inline_comment_ok :
-  Forall wf_item regress_inline_comment /\ Forall closed_item regress_inline_comment /\
+  Forall (wf_item true) regress_inline_comment /\ Forall closed_item regress_inline_comment /\
   render_fixed regress_inline_comment = [s "      x = 1 ! c" ++ [nl]; s "     &  + 2" ++ [nl]] /\
   map chomp (convert_to_free true (render_fixed regress_inline_comment)) = [s "x = 1 & ! c"; s "  + 2"] /\
   render_file (free_of regress_inline_comment) = [s "x = 1 & ! c"; s "  + 2"] /\
@@ -819,7 +1205,7 @@ Proof.
 Qed.
 
 Example regress_blank_ok :
-  Forall wf_item regress_blank /\ Forall closed_item regress_blank /\
+  Forall (wf_item true) regress_blank /\ Forall closed_item regress_blank /\
   render_fixed regress_blank = [s "      x = 1" ++ [nl]; s "       " ++ [nl]; s "     &  + 2" ++ [nl]] /\
   map chomp (convert_to_free true (render_fixed regress_blank)) = [s "x = 1 &"; s " "; s "  + 2"] /\
   render_file (free_of regress_blank) = [s "x = 1 &"; s " "; s "  + 2"] /\
@@ -845,7 +1231,7 @@ Definition example_fixed : list fxitem :=
    FxStmt {| fs_first := mkfx (spaces 5) " " 0 (s "end") 0 None; fs_conts := [] |}].
 
 Example example_fixed_ok :
-  Forall wf_item example_fixed /\ Forall closed_item example_fixed /\ Forall item_ok (free_of example_fixed) /\
+  Forall (wf_item true) example_fixed /\ Forall closed_item example_fixed /\ Forall item_ok (free_of example_fixed) /\
   map chomp (convert_to_free true (render_fixed example_fixed))
   = [s "! header"; s "100  call f('a!b', 'it''s', & ! first ' part"; s "! star"; s ""; s "   ";
      s "    x) &"; s "!"; spaces 34; s "! bang"; s ""; s "; y = 2 !last"; s ""; spaces 24; s "end"] /\
@@ -864,7 +1250,7 @@ Definition example_doc : list fxitem :=
              fs_conts := [([FxBlank 72], mkfx (spaces 5) "+" 1 (s "n") 0 None)] |}].
 
 Example example_doc_ok :
-  Forall wf_item example_doc /\ Forall closed_item example_doc /\
+  Forall (wf_item true) example_doc /\ Forall closed_item example_doc /\
   map chomp (convert_to_free true (render_fixed example_doc)) = [s "integer :: & !! the count"; spaces 66; s " n"] /\
   read_all default_cfg (map chomp (convert_to_free true (render_fixed example_doc)))
   = ROk [s "integer :: n"; s "!! the count"].
@@ -883,7 +1269,7 @@ Definition regress_indented : list fxitem :=
              fs_conts := [([FxBang 6 (s " note")], mkfx (spaces 5) "&" 2 (s "+ 2") 0 None)] |}].
 
 Example regress_indented_ok :
-  Forall wf_item regress_indented /\ Forall closed_item regress_indented /\
+  Forall (wf_item true) regress_indented /\ Forall closed_item regress_indented /\
   render_fixed regress_indented = [s "      x = 1" ++ [nl]; s "      ! note" ++ [nl]; s "     &  + 2" ++ [nl]] /\
   map chomp (convert_to_free true (render_fixed regress_indented)) = [s "x = 1 &"; s "      ! note"; s "  + 2"] /\
   render_file (free_of regress_indented) = [s "x = 1 &"; s "      ! note"; s "  + 2"] /\
@@ -905,7 +1291,7 @@ Definition example_bang : list fxitem :=
                           ([FxBlank 8], mkfx (spaces 5) "!" 1 (s "d)") 0 None)] |}].
 
 Example example_bang_ok :
-  Forall wf_item example_bang /\ Forall closed_item example_bang /\ Forall item_ok (free_of example_bang) /\
+  Forall (wf_item true) example_bang /\ Forall closed_item example_bang /\ Forall item_ok (free_of example_bang) /\
   render_fixed example_bang
   = map (fun x => x ++ [nl])
         [s "  ! in column 3"; s "   10 call f(a, ! first"; s " !"; s "    ! col 5"; s "     !  b,! note"; s "      ! col 7"; spaces 30 ++ s "!far"; s "     !c,";
@@ -917,6 +1303,98 @@ Example example_bang_ok :
 Proof.
   split; [unfold example_bang; wf_tac|]. split; [unfold example_bang; wf_tac|].
   split; [|repeat match goal with |- _ /\ _ => split end; vm_compute; reflexivity].
+  repeat constructor; simpl; repeat split; try reflexivity; try discriminate; auto;
+    try (intros; discriminate); try (repeat constructor; simpl; repeat split; discriminate).
+Qed.
+
+(* ---------- text in columns 73 and beyond ---------- *)
+
+(* With the line length limited, what stands beyond column 72 is no part of the file.  It used to
+   be appended to an inline documentation comment of its line (a repaired defect):
+         integer :: n  !! the number of iterations of the outer loop that r|un before convergence *)
+Definition regress_seq_doc : list fxitem :=
+  [FxStmt {| fs_first := mkfxs (spaces 5) " " 0 (s "integer :: n") 2
+                               (Some (s "! the number of iterations of the outer loop that r"))
+                               (Some (s "un before convergence"));
+             fs_conts := [] |};
+   FxStmt {| fs_first := mkfxs (spaces 5) " " 0 (s "integer :: m") 1 (Some (s "! the count" ++ spaces 41))
+                               (Some (s "SEQ00010"));
+             fs_conts := [([], mkfxs (spaces 5) "&" 1 (s ", k") 62 None (Some (s "!note")))] |}].
+
+Example regress_seq_doc_ok :
+  Forall (wf_item true) regress_seq_doc /\ Forall closed_item regress_seq_doc /\
+  render_fixed regress_seq_doc
+  = map (fun x => x ++ [nl])
+        [s "      integer :: n  !! the number of iterations of the outer loop that run before convergence";
+         s "      integer :: m !! the count" ++ spaces 41 ++ s "SEQ00010";
+         s "     & , k" ++ spaces 62 ++ s "!note"] /\
+  map chomp (convert_to_free true (render_fixed regress_seq_doc))
+  = [s "integer :: n  !! the number of iterations of the outer loop that r";
+     s "integer :: m & !! the count"; s " , k" ++ spaces 68 ++ s "! !note"] /\
+  read_all default_cfg (map chomp (convert_to_free true (render_fixed regress_seq_doc)))
+  = ROk [s "integer :: n"; s "!! the number of iterations of the outer loop that r";
+         s "integer :: m , k"; s "!! the count"] /\
+  norm_res (read_all default_cfg (render_file (std_free_of regress_seq_doc)))
+  = ROk [s "integer :: n"; s "!! the number of iterations of the outer loop that r";
+         s "integer :: m , k"; s "!! the count"].
+Proof.
+  split; [unfold regress_seq_doc; wf_tac|]. split; [unfold regress_seq_doc; wf_tac|].
+  repeat match goal with |- _ /\ _ => split end; vm_compute; reflexivity.
+Qed.
+
+(* non-vacuity: a labelled statement over four lines with sequence numbers on every line; one line
+   has an inline comment before column 72, one an inline comment that runs over column 72, a blank
+   line of 80 columns and a comment line whose '!' stands in column 74 in between *)
+Definition example_seq : list fxitem :=
+  [FxStmt {| fs_first := mkfxs (s "  100") "0" 1 (s "call f('a!b',") 52 None (Some (s "SEQ00010"));
+             fs_conts :=
+               [([], mkfxs (spaces 5) "1" 4 (s "x,") 0 (Some (s " second" ++ spaces 52)) (Some (s "SEQ00020")));
+                ([], mkfxs (spaces 5) "!" 0 (s "y,") 1
+                           (Some (s " a plain comment that runs over column seventy-two and goes on"))
+                           (Some (s " for a while")));
+                ([FxBlank 80; FxBang 73 (s "beyond")], mkfxs (spaces 5) "&" 2 (s "z)") 62 None (Some (s "00000040")))] |}].
+
+Example example_seq_ok :
+  Forall (wf_item true) example_seq /\ Forall closed_item example_seq /\
+  Forall item_ok (free_of example_seq) /\ Forall item_ok (free_of (cut_file example_seq)) /\
+  render_fixed example_seq
+  = map (fun x => x ++ [nl])
+        [s "  1000 call f('a!b'," ++ spaces 52 ++ s "SEQ00010";
+         s "     1    x,! second" ++ spaces 52 ++ s "SEQ00020";
+         s "     !y, ! a plain comment that runs over column seventy-two and goes on for a while";
+         spaces 80; spaces 73 ++ s "!beyond";
+         s "     &  z)" ++ spaces 62 ++ s "00000040"] /\
+  map chomp (convert_to_free true (render_fixed example_seq))
+  = [s "100  call f('a!b', &" ++ spaces 52 ++ s "! SEQ00010";
+     s "    x, & ! second";
+     s "y, & ! a plain comment that runs over column seventy-two and goes on";
+     spaces 74; spaces 73 ++ s "!beyond";
+     s "  z)" ++ spaces 68 ++ s "! 00000040"] /\
+  read_all default_cfg (map chomp (convert_to_free true (render_fixed example_seq)))
+  = ROk [s "100  call f('a!b', x, y, z)"] /\
+  read_all default_cfg (render_file (std_free_of example_seq)) = ROk [s "100  call f('a!b', x, y, z)"].
+Proof.
+  split; [unfold example_seq; wf_tac|]. split; [unfold example_seq; wf_tac|].
+  split; [|split; [|repeat match goal with |- _ /\ _ => split end; vm_compute; reflexivity]];
+    (repeat constructor; simpl; repeat split; try reflexivity; try discriminate; auto;
+     try (intros; discriminate); try (repeat constructor; simpl; repeat split; discriminate)).
+Qed.
+
+(* with the length limit off a line may have any width: text and comments beyond column 72 are
+   statement text and comments like everything else *)
+Definition example_wide : list fxitem :=
+  [FxStmt {| fs_first := mkfx (spaces 5) " " 0 (s "x = 'a long literal that reaches beyond column seventy-two of the line' // y") 2
+                              (Some (s " and a comment"));
+             fs_conts := [([FxBlank 90], mkfx (spaces 5) "+" 60 (s "// 'far right'") 0 None)] |}].
+
+Example example_wide_ok :
+  Forall (wf_item false) example_wide /\ Forall closed_item example_wide /\ Forall no_seq_item example_wide /\
+  Forall item_ok (free_of example_wide) /\
+  read_all default_cfg (map chomp (convert_to_free false (render_fixed example_wide)))
+  = ROk [s "x = 'a long literal that reaches beyond column seventy-two of the line' // y // 'far right'"].
+Proof.
+  split; [unfold example_wide; wf_tac|]. split; [unfold example_wide; wf_tac|].
+  split; [repeat constructor|]. split; [|vm_compute; reflexivity].
   repeat constructor; simpl; repeat split; try reflexivity; try discriminate; auto;
     try (intros; discriminate); try (repeat constructor; simpl; repeat split; discriminate).
 Qed.
